@@ -260,6 +260,41 @@ theorem order_declared_widens_with_nil :
 theorem order_structured_first_keeps_int :
     unifyWith Rules.current 8 8 tOrd [] 3 4 = some (tOrd, some [(7, 0)]) := by decide
 
+/-! ### 2d. Caller's and callee's type variables (repair 10)
+
+A generic function calls another one whose type parameters have the SAME names, arguments
+crosswise: parameter `['a, 'b, 'b | 'bin]`, argument `[('b | 'bin), 'a, ('b | 'bin)]`.
+types: 0 'a, 1 'b, 2 'bin, 3 `'b | 'bin`, 4 the parameter, 5 the argument. Under the shared-names
+rule `'a := 'b | 'bin`, then `'b := ('a resolved) = 'b | 'bin`, and `'bin` against the argument's
+`'b` resolves `'b` to a union that contains `'b` again — for ever (the compiler overflows its
+stack); the model runs out of any fuel. With the caller's variables opaque the answer is
+`'a := 'b | 'bin`, `'b := 'a | 'b` (both the CALLER's). -/
+def tCross : Table :=
+  { types := [.variable 7, .variable 8, .binary, .union [1, 2], .tuple 1, .tuple 2],
+    tuples := [⟨none, []⟩, ⟨none, [(none, 0), (none, 1), (none, 3)]⟩, ⟨none, [(none, 3), (none, 0), (none, 3)]⟩] }
+
+theorem shared_names_crosswise_never_ends :
+    unifyWith Rules.sharedNames 8 20 tCross [] 4 5 = none ∧ unifyWith Rules.sharedNames 8 60 tCross [] 4 5 = none := by
+  refine ⟨by decide, by decide⟩
+
+theorem caller_opaque_crosswise_ends :
+    unifyWith Rules.current 8 8 tCross [] 4 5 =
+      some ({ tCross with types := tCross.types ++ [.union [0, 1]] }, some [(7, 3), (8, 6)]) := by decide
+
+/-- `['a, 'a]` against `['a, 'int]` (the caller's `'a`): the shared-names rule skips the like-named
+variable and binds `'a := 'int` only — `g = #<'a>['a, 'a] { $0 }, h = #<'a>'a { [$, 1] g }, 0xff h`
+was typed `'int` and yields `0xff`; now `'a := 'a | 'int`.
+types: 0 'a, 1 'int, 2 `['a, 'a]`, 3 `['a, 'int]`. -/
+def tSkip : Table :=
+  { types := [.variable 7, .integer, .tuple 1, .tuple 2],
+    tuples := [⟨none, []⟩, ⟨none, [(none, 0), (none, 0)]⟩, ⟨none, [(none, 0), (none, 1)]⟩] }
+
+theorem shared_names_skip_drops_callers_variable :
+    unifyWith Rules.sharedNames 8 8 tSkip [] 2 3 = some (tSkip, some [(7, 1)]) ∧
+    unifyWith Rules.current 8 8 tSkip [] 2 3 =
+      some ({ tSkip with types := tSkip.types ++ [.union [0, 1]] }, some [(7, 4)]) := by
+  refine ⟨by decide, by decide⟩
+
 /-! ### 3. Typed entry points and their guards
 
 `wellTagged` (every tuple value `Tuple(id, fs)` has `fs[i]` in field type `i` of `id`) is
